@@ -75,6 +75,15 @@ Apply(e) ==
     [] e.t = "clear"  -> Garble(term)
     [] OTHER          -> term
 
+\* back_color_erase = False tells the display that the terminal erases to its DEFAULT background whatever the current colours are:
+\* such traces (nobce = 1) are run on a terminal that behaves so; everything else is the same terminal
+NoBce(tr) == "nobce" \in DOMAIN tr /\ tr.nobce = 1
+EraseNoBce(e) ==
+  LET t0 == [term EXCEPT !.pen.bg = -1]
+      r == CASE e.t = "el" -> EL(t0, e.n) [] e.t = "ed" -> ED(t0, e.n) [] OTHER -> ICH(t0, e.n)
+  IN [r EXCEPT !.pen = term.pen]
+ApplyT(tr, e) == IF NoBce(tr) /\ e.t \in {"el", "ed", "ich"} THEN EraseNoBce(e) ELSE Apply(e)
+
 Known == {"put", "zw", "cup", "bs", "cr", "lf", "cuu", "cud", "cuf", "cub", "sgr", "el", "ed", "ich", "irm", "so", "si",
           "desig", "decset", "resize", "frame", "clear"}
 
@@ -87,7 +96,7 @@ Step == /\ ok
                     ELSE IF e.t = "exc" THEN "draw_raised"
                     ELSE IF e.t \notin Known THEN "unknown_control_sequence"
                     ELSE "-"
-           IN /\ term' = Apply(e)
+           IN /\ term' = ApplyT(Traces[tid], e)
               /\ why' = v
               /\ ok' = (v = "-")
 Spec == Init /\ [][Step]_vars
